@@ -391,6 +391,26 @@ def run(F, R, tier):
                       "-+ pi exactly when beta - alpha_h is below -pi/2 / above pi/2", F.loc(f),
             "the normalisation of alpha_h to beta - alpha_h in [-pi/2, pi/2] changed: %s" % why, key="R7|alpha_h")
 
+    # ---- R9 a model is built from its own inputs only ---------------------------------------------------------------------
+    R.rule("R9", "no static-storage variable of the THDM model code is initialised from run-time values (a `static const` built from the "
+                 "first model's SM input or CKM matrix would be reused by every model constructed later in the process)", 3)
+    for key, g in sorted(F.globals.items()):
+        if g["file"] not in ("src/THDM/THDM.cpp", "src/THDM/THDM_mass_eigenstates.cpp", "src/THDM/THDM_parameters.cpp", "src/SM/SM.cpp"):
+            continue
+        ini = g.get("init")
+        bad = None
+        if ini is not None:
+            for n in walk(ini):
+                if (n.get("k") == "DeclRefExpr" and n.get("rk") in ("Param", "Var")) or n.get("k") == "CXXThisExpr" or \
+                        (n.get("k") == "MemberExpr" and n.get("mk") == "Field"):
+                    bad = n
+                    break
+        ok = bad is None and (g["const"] or g["constexpr"] or str(g["t"]).startswith("const "))
+        R.check("R9", ok, "%s is a compile-time style constant" % g["name"].split("::")[-1], "%s:%s" % (g["file"], g["line"]),
+                "static `%s` depends on run-time data (%s): the second model built in a process gets the first model's value and no "
+                "longer reproduces its own input" % (g["name"].split("::")[-1], (bad.get("n") or bad.get("sn") or "this") if bad else "writable"),
+                key="R9|" + g["name"])
+
     # ---- R8 CKM enters the up-type Yukawa matrices as V^dagger ------------------------------------------
     R.rule("R8", "init_yukawas uses the CKM matrix only through its adjoint (M_u = V_CKM^dagger diag(m_u), so that the quark "
                  "mixing matrices reproduce the input CKM matrix incl. its CP phase)", 1)
